@@ -114,12 +114,12 @@ func (r *Recorder) Find(site string) []Call {
 // ------------------------------------------------------------------------- decorators
 
 type bankDeco struct {
-	k   bankkeeper.Keeper
+	bankkeeper.Keeper // embedded: methods a changed expected-keeper interface adds are passed through undecorated
 	rec *Recorder
 }
 
 func (b bankDeco) GetBalance(ctx context.Context, addr sdk.AccAddress, denom string) sdk.Coin {
-	c := b.k.GetBalance(ctx, addr, denom)
+	c := b.Keeper.GetBalance(ctx, addr, denom)
 	b.rec.hit("bank.GetBalance", fmt.Sprintf("%s %s -> %s", addr, denom, c), nil, false)
 	return c
 }
@@ -128,18 +128,18 @@ func (b bankDeco) SendCoinsFromModuleToModule(ctx context.Context, from, to stri
 	if b.rec.hit("bank.SendCoinsFromModuleToModule", fmt.Sprintf("%s -> %s %s", from, to, amt), nil, true) {
 		return errInjected
 	}
-	return b.k.SendCoinsFromModuleToModule(ctx, from, to, amt)
+	return b.Keeper.SendCoinsFromModuleToModule(ctx, from, to, amt)
 }
 
 func (b bankDeco) SendCoins(ctx context.Context, from, to sdk.AccAddress, amt sdk.Coins) error {
 	if b.rec.hit("bank.SendCoins", fmt.Sprintf("%s -> %s %s", from, to, amt), nil, true) {
 		return errInjected
 	}
-	return b.k.SendCoins(ctx, from, to, amt)
+	return b.Keeper.SendCoins(ctx, from, to, amt)
 }
 
 type bankMsgDeco struct {
-	s   banktypes.MsgServer
+	banktypes.MsgServer
 	rec *Recorder
 }
 
@@ -147,11 +147,11 @@ func (b bankMsgDeco) Send(ctx context.Context, msg *banktypes.MsgSend) (*banktyp
 	if b.rec.hit("bankmsg.Send", msg.String(), msg, true) {
 		return nil, errInjected
 	}
-	return b.s.Send(ctx, msg)
+	return b.MsgServer.Send(ctx, msg)
 }
 
 type cctpDeco struct {
-	s   cctptypes.MsgServer
+	cctptypes.MsgServer
 	rec *Recorder
 }
 
@@ -159,25 +159,25 @@ func (c cctpDeco) DepositForBurn(ctx context.Context, m *cctptypes.MsgDepositFor
 	if c.rec.hit("cctp.DepositForBurn", m.String(), m, true) {
 		return nil, errInjected
 	}
-	return c.s.DepositForBurn(ctx, m)
+	return c.MsgServer.DepositForBurn(ctx, m)
 }
 
 func (c cctpDeco) DepositForBurnWithCaller(ctx context.Context, m *cctptypes.MsgDepositForBurnWithCaller) (*cctptypes.MsgDepositForBurnWithCallerResponse, error) {
 	if c.rec.hit("cctp.DepositForBurnWithCaller", m.String(), m, true) {
 		return nil, errInjected
 	}
-	return c.s.DepositForBurnWithCaller(ctx, m)
+	return c.MsgServer.DepositForBurnWithCaller(ctx, m)
 }
 
 func (c cctpDeco) ReplaceDepositForBurn(ctx context.Context, m *cctptypes.MsgReplaceDepositForBurn) (*cctptypes.MsgReplaceDepositForBurnResponse, error) {
 	if c.rec.hit("cctp.ReplaceDepositForBurn", m.String(), m, true) {
 		return nil, errInjected
 	}
-	return c.s.ReplaceDepositForBurn(ctx, m)
+	return c.MsgServer.ReplaceDepositForBurn(ctx, m)
 }
 
 type hypDeco struct {
-	h   forwardingtypes.HyperlaneHandler
+	forwardingtypes.HyperlaneHandler
 	rec *Recorder
 }
 
@@ -185,27 +185,27 @@ func (h hypDeco) RemoteTransfer(ctx context.Context, m *warptypes.MsgRemoteTrans
 	if h.rec.hit("warp.RemoteTransfer", m.String(), m, true) {
 		return nil, errInjected
 	}
-	return h.h.RemoteTransfer(ctx, m)
+	return h.HyperlaneHandler.RemoteTransfer(ctx, m)
 }
 
 func (h hypDeco) Token(ctx context.Context, q *warptypes.QueryTokenRequest) (*warptypes.QueryTokenResponse, error) {
 	if h.rec.hit("warp.Token", q.String(), q, true) {
 		return nil, errInjected
 	}
-	return h.h.Token(ctx, q)
+	return h.HyperlaneHandler.Token(ctx, q)
 }
 
 type eventDeco struct {
-	s   event.Service
+	event.Service
 	rec *Recorder
 }
 
 func (e eventDeco) EventManager(ctx context.Context) event.Manager {
-	return eventMgrDeco{e.s.EventManager(ctx), e.rec}
+	return eventMgrDeco{e.Service.EventManager(ctx), e.rec}
 }
 
 type eventMgrDeco struct {
-	m   event.Manager
+	event.Manager
 	rec *Recorder
 }
 
@@ -217,13 +217,13 @@ func (e eventMgrDeco) Emit(ctx context.Context, ev protoiface.MessageV1) error {
 	if e.rec.hit("events.Emit["+name+"]", "", nil, true) {
 		return errInjected
 	}
-	return e.m.Emit(ctx, ev)
+	return e.Manager.Emit(ctx, ev)
 }
 func (e eventMgrDeco) EmitKV(ctx context.Context, t string, a ...event.Attribute) error {
-	return e.m.EmitKV(ctx, t, a...)
+	return e.Manager.EmitKV(ctx, t, a...)
 }
 func (e eventMgrDeco) EmitNonConsensus(ctx context.Context, ev protoiface.MessageV1) error {
-	return e.m.EmitNonConsensus(ctx, ev)
+	return e.Manager.EmitNonConsensus(ctx, ev)
 }
 
 type storeDeco struct {
